@@ -25,11 +25,13 @@ PLAN = dict(
     tiers=dict(
         quick=[det("rel", H, "cs-rel", 16, 340, 4, tso=True, time_cap=35),
                det("dbg", H, "cs-dbg", 16, 120, 4, tso=True, time_cap=25, args=["--no-soft0"]),
+               det("rel-noenq", H, "cs-rel", 8, 200, 4, tso=True, time_cap=30, args=["--noenq"]),
                det("witness-oversubscribed", H, "cs-rel", 1, 10, 3, time_cap=15, args=["--witness"]),
                det("witness-allotment-assert", H, "cs-dbg", 1, 15, 4, time_cap=20, args=["--witness2"]),
                det("directed-execute-wait", H, "cs-rel", 2, 30, 6, tso=True, time_cap=20, args=["--witness3"])],
         thorough=[det("rel", H, "cs-rel", 16, 2600, 5, tso=True, time_cap=280),
                   det("dbg", H, "cs-dbg", 16, 700, 5, tso=True, time_cap=130, args=["--no-soft0"]),
+                  det("rel-noenq", H, "cs-rel", 16, 2000, 5, tso=True, time_cap=200, args=["--noenq"]),
                   det("witness-oversubscribed", H, "cs-rel", 1, 10, 3, time_cap=15, args=["--witness"]),
                   det("witness-allotment-assert", H, "cs-dbg", 1, 15, 4, time_cap=20, args=["--witness2"]),
                   det("directed-execute-wait", H, "cs-rel", 2, 30, 6, tso=True, time_cap=20, args=["--witness3"]),
